@@ -3,17 +3,17 @@
 CHECKS = {
     'C12': dict(
         technique='explicit-state reachability (BFS to fixpoint) over the real reader objects in lock-step with a reference cursor',
-        level_text='Every operation history of any length over a boundary-valued alphabet (about 330 operation instances per state: Read/ReadPartial/Peek/Seek*/typed/prefixed/string/Slice with arguments 0,1,rem-1,rem,rem+1,len,2^31,2^32,2^63,2^64-pos,2^64-1,...) is covered because the reachable product state graph (real reader state x reference position) is explored to a fixpoint for 10 sources x 5 backends; each edge compares returned bytes, counts, Position(), Length() and error/no error with the reference, under ASan+UBSan with exact-size destination buffers.',
+        level_text='Every operation history of any length over a boundary-valued alphabet (about 380 operation instances per state: Read/ReadPartial/Peek/Seek*/typed values/pre-sized containers and strings of element width 1,2,3,4,8 (string, u16string, u32string, wstring, vectors)/size-prefixed containers for 6 prefix types x 6 container types/NUL-terminated string/Slice with arguments 0,1,rem-1,rem,rem+1,len,2^31,2^32,2^63,2^64-pos,2^64-1,...) is covered because the reachable product state graph (real reader state x reference position) is explored to a fixpoint for 10 sources x 5 backends; each edge compares returned bytes, counts, Position(), Length() and error/no error with the reference, under ASan+UBSan with exact-size destination buffers.',
         level_note='Trusts g++/libstdc++/ASan, tmpfs files, and the 60-line reference cursor in the harness. Values outside the boundary sets and sources longer than 10 bytes are not explored. Weaker reading: after a rejected size-prefixed or string read the cursor may be at the old position or past the prefix/scanned data.',
         src='checks/c12_readers.cpp',
         runs=[dict(cfg='asan')],
         rule='explicit-state BFS to a fixpoint over the product (real reader, reference cursor); a case = one (source, backend) pair; '
              'a state = reader private state + model position; every operation of the boundary-valued alphabet is applied in every reachable state',
-        bounds={'quick': '10 sources (len 0..10) x 5 backends (memory, memory slice, file slice, slice of slice, slice-at-position); ~330 op instances per state; fixpoint',
+        bounds={'quick': '10 sources (len 0..10) x 5 backends (memory, memory slice, file slice, slice of slice, slice-at-position); ~380 op instances per state; fixpoint',
                 'thorough': 'adds every source of length <= 3 over the bytes {00,01,02,7F,80,FF} (259 sources) and two sources of 16 and 20 bytes, each on all 5 backends, fixpoint'},
         must_hit={'any': ['read/in-bounds', 'read/out-of-bounds', 'read/wraps-64-bit', 'readpartial/short', 'readpartial/full', 'peek/in-bounds',
                           'peek/out-of-bounds', 'seek/in-bounds', 'seek/out-of-bounds', 'typed/prefixed-ok', 'typed/prefixed-reject',
-                          'typed/cstr-ok', 'typed/cstr-reject', 'slice/contained', 'slice/not-contained', 'slice/wraps-64-bit']},
+                          'typed/cstr-ok', 'typed/cstr-reject', 'typed/sized-ok', 'typed/sized-wide-ok', 'typed/sized-reject', 'slice/contained', 'slice/not-contained', 'slice/wraps-64-bit']},
         assumptions=['x86-64 little endian; harness reads private cursor fields via -fno-access-control for state keys only',
                      'argument values outside the boundary sets are not explored'],
     ),
@@ -80,7 +80,7 @@ CHECKS['C01'] = dict(
     runs=[dict(cfg='asan')],
     technique='small-scope exhaustive enumeration of file sets (built by add-file transitions) x every list order x path spellings, executed on the real packer/reader',
     level_text='Every file set with k<=2 files over 11 names x 8 sizes (full product), k=3 over all 165 name triples with <=2 sizes off default, k=4 over an 8-name core with <=1 size off default (thorough: k<=3 full product, k=4 with <=2 sizes off default), plus sets around the 128 KiB copy chunk and a 40-file set, is created on tmpfs in three directories and packed with VolFile::CreateArchive in every list order (k<=3: all k!) and four path spellings. The reopened archive must list exactly the inputs in ascending case-insensitive order with exact sizes and the uncompressed kind, stream and extract (all three extraction paths) the exact bytes, and find every member under upper, lower and swapped case. Sets with names equal ignoring case, and outputs that name an input up to case and a leading ./, must be refused with every pre-existing file byte-identical afterwards (directory tree re-hashed).',
-    level_note=_VOL_NOTE + ' Listing order is accepted if ascending under tolower- or toupper-folding (weaker reading).',
+    level_note=_VOL_NOTE + ' Case-insensitive order is read in the strcasecmp/_stricmp sense (characters folded to lower case), the order a consumer\'s binary search uses and the one C03 already demands for CLM; an order ascending only under upper-case folding (differs for _ against letters) is a violation (seeded change S02b).',
     rule='state = one file set (names, sizes, directories, spellings); transitions = CreateArchive calls and member interrogations',
     bounds={'quick': 'k<=2 full; k=3: 165 name triples x 169 size vectors; k=4: 70 core quadruples x 29; big sizes; 40-file set; 14 refusal scenarios',
             'thorough': 'k<=3 full product (84480 triples), k=4 deviation<=2 (106590), big-size pairs and mixes'},
@@ -189,11 +189,11 @@ CHECKS['C10'] = dict(
     src='checks/c10_prt.cpp',
     runs=[dict(cfg='asan')],
     technique='small-scope deviation-bounded enumeration of well-formed PRT files (independent encoder) on the real reader/writer, writer-refusal enumeration, single-field fault enumeration',
-    level_text='Well-formed PRT byte strings are produced by the independent ref_prt encoder over 12 dimensions (0..2 palettes, 0..2 images with widths 0,1,3,4,5 and type bits 0/shadow/all, 0..2 animations, 0..2 frames with all four combinations of the two optional-data flags, layer counts 0,1,2,127, optional byte values, 0..2 unknown-container records, unknown total, canonical and two non-canonical-but-accepted palette header spellings) with at most 3 (thorough 5) dimensions off default. For each: Read accepts; every field equals the reference incl. palettes r,g,b in memory where the file has b,g,r; the cross-field rules hold under independent 64-bit evaluation; Write reproduces the input bytes when the palette headers are canonical and the canonical re-encoding otherwise; a deep dump of the object is identical before and after Write; Read(Write(x)) deep-equals x and a second Write is byte-identical. 60+ in-memory structures violating a rule (palette index out of range, scan line != rounded width incl. widths >= 2^32-3, layer list != 7-bit count) must make Write throw without altering the object. Every proper prefix and every integer field x ~45 boundary values of two seed files is either rejected or yields a result that satisfies the rules.',
+    level_text='Well-formed PRT byte strings are produced by the independent ref_prt encoder over 12 dimensions (0..2 palettes, 0..2 images with widths 0,1,3,4,5 and type bits 0/shadow/all, 0..2 animations, 0..2 frames with all four combinations of the two optional-data flags, layer counts 0,1,2,127, optional byte values, 0..2 unknown-container records, unknown total, canonical and two non-canonical-but-accepted palette header spellings) with at most 3 (thorough 5) dimensions off default. For each: Read accepts; every field equals the reference incl. palettes r,g,b in memory where the file has b,g,r; the cross-field rules hold under independent 64-bit evaluation; Write reproduces the input bytes when the palette headers are canonical and the canonical re-encoding otherwise; a deep dump of the object is identical before and after Write; Read(Write(x)) deep-equals x and a second Write is byte-identical. 60+ in-memory structures violating a rule (palette index out of range, scan line != rounded width incl. widths >= 2^32-3, layer list != 7-bit count incl. list lengths equal to the count modulo 128) must make Write throw without altering the object. Every proper prefix and every integer field x ~45 boundary values of four seed files (one and two animations, no animations - where the header totals are the last bytes of the file -, and the empty file) is either rejected or yields a result that satisfies the rules and, when the palette section headers are untouched, is reproduced byte for byte by Write (the object does not keep the header totals, so this is how "totals equal the contents" is decided).',
     level_note='Trusts ref_prt (100 lines) and g++/ASan/UBSan. Structures with more than 2 palettes/images/animations/frames are not enumerated.',
     rule='state = one well-formed file / one violating structure / one corrupted file; transitions = Read/Write calls judged',
-    bounds={'quick': 'deviation<=3 over 12 dimensions; 60 writer refusals; level-1 faults on 2 seeds', 'thorough': 'deviation<=5'},
-    must_hit={'any': ['roundtrip/canonical-input-reproduced', 'roundtrip/non-canonical-headers-canonicalised', 'frames/both-optional-flags', 'frames/one-optional-flag', 'frames/no-optional-flag', 'frames/127-layers', 'frames/0-layers', 'file-overloads/round-trips', 'writer-refusals/attempts', 'corruption/rejected', 'corruption/accepted']},
+    bounds={'quick': 'deviation<=3 over 12 dimensions; 70 writer refusals; level-1 faults on 4 seeds', 'thorough': 'deviation<=5'},
+    must_hit={'any': ['roundtrip/canonical-input-reproduced', 'roundtrip/non-canonical-headers-canonicalised', 'frames/both-optional-flags', 'frames/one-optional-flag', 'frames/no-optional-flag', 'frames/127-layers', 'frames/0-layers', 'file-overloads/round-trips', 'writer-refusals/attempts', 'corruption/rejected', 'corruption/accepted', 'corruption/accepted-and-reproduced']},
     assumptions=[],
 )
 
@@ -201,10 +201,10 @@ CHECKS['C11'] = dict(
     src='checks/c11_loader_faults.cpp',
     runs=[dict(cfg='asan')],
     technique='deviation-bounded fault enumeration over reference-encoded bitmaps, tilesets and PRT files plus arithmetically constructed wrap-consistent headers; explicit-state exploration of follow-up operations on every accepted object',
-    level_text='Seeds: indexed bitmaps of depth 1, 4 (partial palette, top-down) and 8, a tileset stored as standard bitmap, a custom tileset 32x64, and a PRT file with 2 palettes, 3 images (one shadow image) and 2 animations. Every proper prefix, every integer field x ~45 boundary values, byte substitutions in the header regions, and (thorough) all field pairs x 10x10 values are loaded through BitmapFile::ReadIndexed, Tileset::ReadTileset and ArtFile::Read under ASan+UBSan; in addition headers are constructed arithmetically (no solver) whose size cross-check holds modulo 2^64 or 2^32: bitmap width in {0,-1,-2,-3,-4,-8,-31,-32,INT_MIN,INT_MIN+1,INT_MAX,2^28} x 18 heights incl. INT_MIN, with the 64-bit and the int-abs variant of |height|; bitmap headers with power-of-two pitch 2^p and height 2^(32-p)+j whose product matches the pixel size only modulo 2^32; custom tileset height fields >= 2^31 with the pixel length 32*h mod 2^32 and odd depth fields; PRT images of width 2^32-3..2^32-1 with scan line 0 and extreme heights. Every proper prefix must be refused. For every accepted bitmap all follow-up operations (Validate, WriteIndexed to memory and to a file, WriteCustomTileset, InvertScanLines, SwapRedAndBlue, AbsoluteHeight, GetScanLineOrientation) are applied in every reachable flip/swap state (fixpoint); for every accepted PRT, Write and SpriteLoader::ExtractImage for every index in 0..count+1 and SIZE_MAX against three pixel files (empty, short, large enough): every call must return or throw a std::exception, out-of-range sprite indices must be refused.',
+    level_text='Seeds: indexed bitmaps of depth 1, 4 (partial palette, top-down) and 8, a tileset stored as standard bitmap, a custom tileset 32x64, a PRT file with 2 palettes, 3 images (one shadow image) and 2 animations, a PRT file without animations and the empty PRT file. Every proper prefix, every integer field x ~45 boundary values, byte substitutions in the header regions, and (thorough) all field pairs x 10x10 values are loaded through BitmapFile::ReadIndexed, Tileset::ReadTileset and ArtFile::Read under ASan+UBSan; in addition headers are constructed arithmetically (no solver) whose size cross-check holds modulo 2^64 or 2^32: bitmap width in {0,-1,-2,-3,-4,-8,-31,-32,INT_MIN,INT_MIN+1,INT_MAX,2^28} x 18 heights incl. INT_MIN, with the 64-bit and the int-abs variant of |height|; bitmap headers with power-of-two pitch 2^p and height 2^(32-p)+j whose product matches the pixel size only modulo 2^32; custom tileset height fields >= 2^31 with the pixel length 32*h mod 2^32 and odd depth fields; PRT images of width 2^32-3..2^32-1 with scan line 0 and extreme heights. Every proper prefix must be refused. For every accepted bitmap all follow-up operations (Validate, WriteIndexed to memory and to a file, WriteCustomTileset, InvertScanLines, SwapRedAndBlue, AbsoluteHeight, GetScanLineOrientation) are applied in every reachable flip/swap state (fixpoint); for every accepted PRT, Write and SpriteLoader::ExtractImage for every index in 0..count+1 and SIZE_MAX against three pixel files (empty, short, large enough): every call must return or throw a std::exception, out-of-range sprite indices must be refused.',
     level_note='Trusts the reference encoders and g++/ASan/UBSan (gcc UBSan reports abs(INT_MIN)); allocation requests above 64 MiB are answered with bad_alloc. Coverage-guided mutation and solver-chosen combinations are replaced by the arithmetic enumeration above.',
     rule='case = a block of mutants of one seed; states = accepted objects and their flip/swap states; transitions = loader calls and follow-up operations',
-    bounds={'quick': 'level 1 on 6 seeds + about 500 constructed headers', 'thorough': 'adds level 2 field pairs'},
+    bounds={'quick': 'level 1 on 8 seeds + about 500 constructed headers', 'thorough': 'adds level 2 field pairs'},
     must_hit={'any': ['load/refused', 'load/accepted', 'followup/returned', 'followup/ordinary-error', 'followup/sprite-index-out-of-range', 'followup/sprite-extracted', 'followup/sprite-refused', 'constructed/wrap-consistent-headers', 'seeds/unmodified']},
     assumptions=[],
 )
